@@ -218,7 +218,7 @@ Definition no_loads (R : list request) : Prop := forall f, ~ In (RLoad f) R.
 (* re-simulation: n frames are read and advanced; the game history grows by the inputs read *)
 Lemma resim_gi : forall n i p gs L mc o p' o' G,
   resim_go predict n i p mc o = Ok (p', o') ->
-  ps_sparse p = false -> connected (ps_status p) ->
+  connected (ps_status p) ->
   length (ps_status p) = length (s_queues (ps_sync p)) ->
   QsI (s_current (ps_sync p)) L (s_queues (ps_sync p)) gs -> all_clean (s_queues (ps_sync p)) ->
   0 <= s_current (ps_sync p) -> L <= s_current (ps_sync p) ->
@@ -229,30 +229,39 @@ Lemma resim_gi : forall n i p gs L mc o p' o' G,
     ((0 < n)%nat \/ PNl (s_current (ps_sync p)) (s_queues (ps_sync p)) gs ->
      PNl (s_current (ps_sync p) + Z.of_nat n) (s_queues (ps_sync p')) gs).
 Proof.
-  induction n as [|n IH]; intros i p gs L mc o p' o' G E Hsp Hcon Hlen HQ Hcl Hc HL HG HGI.
+  induction n as [|n IH]; intros i p gs L mc o p' o' G E Hcon Hlen HQ Hcl Hc HL HG HGI.
   - cbn [resim_go] in E. injection E as <- <-. exists []. rewrite app_nil_r, Z.add_0_r. cbn [replay_hist].
     split; [reflexivity|]. split; [intros f []|]. split; [exact HGI|]. split; [exact HG|].
     intros [X|X]; [lia|exact X].
   - cbn [resim_go] in E. unfold synchronized_inputs in E.
     destruct (sync_inputs_go_ok predict (ps_status p) (s_queues (ps_sync p)) gs (s_current (ps_sync p)) L HQ Hcl Hlen Hcon Hc HL)
       as (qs' & ins & E0 & HQ' & Hcl' & Hl' & _ & _ & _).
-    rewrite E0 in E. cbn [res_bind] in E. rewrite Hsp in E.
+    rewrite E0 in E. cbn [res_bind] in E.
     pose proof (gi_read _ _ _ _ _ _ _ _ E0 HQ Hcl Hcon Hlen Hc HL HG HGI) as HGI1.
     pose proof (pn_read _ _ _ _ _ _ _ E0 HQ Hcl Hcon Hlen Hc HL) as HPN1.
     set (s1 := with_queues (ps_sync p) qs') in *.
-    assert (Hsave : exists s2 o2 SV, (if 0 <? i then res_bind (save_current_state s1) (fun '(s2, r) => Ok (s2, add_req o r)) else Ok (s1, o)) = Ok (s2, o2) /\
+    assert (Hsave : exists s2 o2 SV,
+               (if ps_sparse p then
+                  (if s_current s1 =? mc then res_bind (save_current_state s1) (fun '(s2, r) => Ok (s2, add_req o r)) else Ok (s1, o))
+                else
+                  (if 0 <? i then res_bind (save_current_state s1) (fun '(s2, r) => Ok (s2, add_req o r)) else Ok (s1, o))) = Ok (s2, o2) /\
                      s_queues s2 = qs' /\ s_current s2 = s_current (ps_sync p) /\
                      o_requests o2 = o_requests o ++ SV /\ no_loads SV /\ (forall G0, replay_hist G0 SV = G0)).
-    { destruct (0 <? i).
-      - unfold save_current_state. subst s1. cbn [with_queues s_current].
+    { assert (Hsv : exists s2 o2 SV, res_bind (save_current_state s1) (fun '(s2, r) => Ok (s2, add_req o r)) = Ok (s2, o2) /\
+                     s_queues s2 = qs' /\ s_current s2 = s_current (ps_sync p) /\
+                     o_requests o2 = o_requests o ++ SV /\ no_loads SV /\ (forall G0, replay_hist G0 SV = G0)).
+      { unfold save_current_state. subst s1. cbn [with_queues s_current].
         assert ((s_current (ps_sync p) <? 0) = false) as -> by lia. cbn [res_bind].
         eexists; eexists; exists [RSave (s_current (ps_sync p))]. split; [reflexivity|]. repeat split.
-        intros f [A|[]]. discriminate A.
-      - exists s1, o, []. split; [reflexivity|]. rewrite app_nil_r. repeat split. intros f []. }
+        intros f [A|[]]. discriminate A. }
+      assert (Hns : exists s2 o2 SV, Ok (s1, o) = Ok (s2, o2) /\
+                     s_queues s2 = qs' /\ s_current s2 = s_current (ps_sync p) /\
+                     o_requests o2 = o_requests o ++ SV /\ no_loads SV /\ (forall G0, replay_hist G0 SV = G0)).
+      { exists s1, o, []. split; [reflexivity|]. rewrite app_nil_r. repeat split. intros f []. }
+      destruct (ps_sparse p); [destruct (s_current s1 =? mc)|destruct (0 <? i)]; assumption. }
     destruct Hsave as (s2 & o2 & SV & Es & Hq2 & Hc2 & Ho2 & HnS & HrS). rewrite Es in E. cbn [res_bind] in E.
     set (p1 := with_sync p (advance_frame s2)) in *.
     destruct (IH (i + 1) p1 gs L mc (add_req o2 (RAdvance ins)) p' o' (G ++ [ins]) E) as (R & Ho & HnR & HGI' & HG' & HPN').
-    + exact Hsp.
     + exact Hcon.
     + subst p1. cbn [with_sync ps_status ps_sync advance_frame with_current s_queues]. rewrite Hq2.
       pose proof (QsI_length _ _ _ _ HQ'). pose proof (QsI_length _ _ _ _ HQ). lia.
@@ -294,6 +303,45 @@ Proof.
   - intros A. congruence.
 Qed.
 
+Lemma adjust_gi_gen : forall p gs L fi mc o p' o' G,
+  adjust_gamestate predict p fi mc o = Ok (p', o') ->
+  connected (ps_status p) ->
+  length (ps_status p) = length (s_queues (ps_sync p)) ->
+  QsI (s_current (ps_sync p)) L (s_queues (ps_sync p)) gs ->
+  L <= (if ps_sparse p then s_last_saved (ps_sync p) else fi) -> -1 <= L ->
+  Forall (fun q => q_first_incorrect q = NULL \/ (if ps_sparse p then s_last_saved (ps_sync p) else fi) <= q_first_incorrect q) (s_queues (ps_sync p)) ->
+  glen G = s_current (ps_sync p) -> GIl (s_current (ps_sync p)) G (s_queues (ps_sync p)) gs ->
+  exists R, o_requests o' = o_requests o ++ R /\
+    GIl (s_current (ps_sync p)) (replay_hist G R) (s_queues (ps_sync p')) gs /\
+    glen (replay_hist G R) = s_current (ps_sync p) /\
+    PNl (s_current (ps_sync p)) (s_queues (ps_sync p')) gs.
+Proof.
+  intros p gs L fi mc o p' o' G E Hcon Hlen HQ HLfl HL Hmin HG HGI.
+  unfold adjust_gamestate in E.
+  set (fl := if ps_sparse p then s_last_saved (ps_sync p) else fi) in *.
+  destruct (fi <? fl); [discriminate|].
+  destruct (load_frame (ps_sync p) fl) as [[s1 r]| |] eqn:El; cbn [res_bind] in E; try discriminate.
+  destruct (load_frame_inv _ _ _ _ El) as (Hfl0 & Hflc & _ & _ & Hs1 & Hr). subst s1 r.
+  set (c := s_current (ps_sync p)) in *.
+  set (p1 := with_sync p (reset_all (with_current (ps_sync p) fl))) in *.
+  destruct (resim_go predict (Z.to_nat (c - fl)) 0 p1 mc (add_req o (RLoad fl))) as [[p2 o2]| |] eqn:Er; cbn [res_bind] in E; try discriminate.
+  destruct (negb (s_current (ps_sync p2) =? c)); [discriminate|]. injection E as <- <-.
+  destruct (resim_gi (Z.to_nat (c - fl)) 0 p1 gs L mc (add_req o (RLoad fl)) p2 o2 (firstn (Z.to_nat fl) G) Er) as (R & Ho & _ & HGI' & HG' & HPN').
+  - exact Hcon.
+  - subst p1. cbn [with_sync ps_status ps_sync reset_all with_queues s_queues with_current]. rewrite map_length. exact Hlen.
+  - subst p1. cbn [with_sync ps_sync reset_all with_queues s_queues s_current with_current]. eapply QsI_reset. exact HQ.
+  - subst p1. cbn [with_sync ps_sync reset_all with_queues s_queues with_current]. apply all_clean_reset.
+  - subst p1. cbn. lia.
+  - subst p1. cbn. lia.
+  - subst p1. cbn [with_sync ps_sync reset_all with_queues s_current with_current]. apply glen_firstn. lia.
+  - subst p1. cbn [with_sync ps_sync reset_all with_queues s_current s_queues with_current].
+    eapply gi_load_reset; try eassumption. lia.
+  - subst p1. cbn [with_sync ps_sync reset_all with_queues s_current with_current] in HGI', HG', HPN'.
+    replace (fl + Z.of_nat (Z.to_nat (c - fl))) with c in HGI', HG', HPN' by lia.
+    exists (RLoad fl :: R). split; [rewrite Ho; cbn [add_req o_requests]; rewrite <- app_assoc; reflexivity|].
+    cbn [replay_hist]. split; [exact HGI'|]. split; [exact HG'|]. apply HPN'. left. lia.
+Qed.
+
 Lemma adjust_gi : forall p gs L fi mc o p' o' G,
   adjust_gamestate predict p fi mc o = Ok (p', o') ->
   ps_sparse p = false -> connected (ps_status p) ->
@@ -308,28 +356,7 @@ Lemma adjust_gi : forall p gs L fi mc o p' o' G,
     PNl (s_current (ps_sync p)) (s_queues (ps_sync p')) gs.
 Proof.
   intros p gs L fi mc o p' o' G E Hsp Hcon Hlen HQ HLfi Hfic HL Hmin HG HGI.
-  unfold adjust_gamestate in E. rewrite Hsp in E. assert ((fi <? fi) = false) as Hff by lia. rewrite Hff in E.
-  destruct (load_frame (ps_sync p) fi) as [[s1 r]| |] eqn:El; cbn [res_bind] in E; try discriminate.
-  destruct (load_frame_inv _ _ _ _ El) as (_ & _ & _ & _ & Hs1 & Hr). subst s1 r.
-  set (c := s_current (ps_sync p)) in *.
-  set (p1 := with_sync p (reset_all (with_current (ps_sync p) fi))) in *.
-  destruct (resim_go predict (Z.to_nat (c - fi)) 0 p1 mc (add_req o (RLoad fi))) as [[p2 o2]| |] eqn:Er; cbn [res_bind] in E; try discriminate.
-  destruct (negb (s_current (ps_sync p2) =? c)); [discriminate|]. injection E as <- <-.
-  destruct (resim_gi (Z.to_nat (c - fi)) 0 p1 gs L mc (add_req o (RLoad fi)) p2 o2 (firstn (Z.to_nat fi) G) Er) as (R & Ho & _ & HGI' & HG' & HPN').
-  - exact Hsp.
-  - exact Hcon.
-  - subst p1. cbn [with_sync ps_status ps_sync reset_all with_queues s_queues with_current]. rewrite map_length. exact Hlen.
-  - subst p1. cbn [with_sync ps_sync reset_all with_queues s_queues s_current with_current]. eapply QsI_reset. exact HQ.
-  - subst p1. cbn [with_sync ps_sync reset_all with_queues s_queues with_current]. apply all_clean_reset.
-  - subst p1. cbn. lia.
-  - subst p1. cbn. lia.
-  - subst p1. cbn [with_sync ps_sync reset_all with_queues s_current with_current]. apply glen_firstn. lia.
-  - subst p1. cbn [with_sync ps_sync reset_all with_queues s_current s_queues with_current].
-    eapply gi_load_reset; try eassumption. lia.
-  - subst p1. cbn [with_sync ps_sync reset_all with_queues s_current with_current] in HGI', HG', HPN'.
-    replace (fi + Z.of_nat (Z.to_nat (c - fi))) with c in HGI', HG', HPN' by lia.
-    exists (RLoad fi :: R). split; [rewrite Ho; cbn [add_req o_requests]; rewrite <- app_assoc; reflexivity|].
-    cbn [replay_hist]. split; [exact HGI'|]. split; [exact HG'|]. apply HPN'. left. lia.
+  apply (adjust_gi_gen p gs L fi mc o p' o' G E Hcon Hlen HQ); rewrite ?Hsp; try assumption. lia.
 Qed.
 
 
@@ -417,6 +444,50 @@ Proof.
 Qed.
 
 
+(* the rollback step hands nothing to the spectators (both saving modes) *)
+Lemma resim_sends : forall n i p mc o p' o',
+  resim_go predict n i p mc o = Ok (p', o') -> o_spec_sends o' = o_spec_sends o.
+Proof.
+  induction n as [|n IH]; intros i p mc o p' o' E; cbn [resim_go] in E.
+  - injection E as <- <-. reflexivity.
+  - apply res_bind_ok in E. destruct E as ([s1 ins] & _ & E).
+    apply res_bind_ok in E. destruct E as ([s2 o2] & E2 & E).
+    apply IH in E. cbn [add_req o_spec_sends] in E. rewrite E.
+    assert (Hsv : forall s2' o2', res_bind (save_current_state s1) (fun '(s2, r) => Ok (s2, add_req o r)) = Ok (s2', o2') ->
+                    o_spec_sends o2' = o_spec_sends o).
+    { intros s2' o2' X. apply res_bind_ok in X. destruct X as ([s3 r] & _ & X). injection X as <- <-. reflexivity. }
+    destruct (ps_sparse p).
+    + destruct (s_current s1 =? mc); [exact (Hsv _ _ E2)|injection E2 as <- <-; reflexivity].
+    + destruct (0 <? i); [exact (Hsv _ _ E2)|injection E2 as <- <-; reflexivity].
+Qed.
+
+Lemma adjust_sends : forall p fi mc o p' o',
+  adjust_gamestate predict p fi mc o = Ok (p', o') -> o_spec_sends o' = o_spec_sends o.
+Proof.
+  intros p fi mc o p' o' E. unfold adjust_gamestate in E. destruct (_ <? _); [discriminate|].
+  apply res_bind_ok in E. destruct E as ([s1 r] & _ & E).
+  apply res_bind_ok in E. destruct E as ([p2 o2] & Er & E).
+  destruct (negb _); [discriminate|]. injection E as <- <-.
+  apply resim_sends in Er. exact Er.
+Qed.
+
+Lemma handle_rollback_sends : forall p cf o p1 o1,
+  handle_rollback_and_save predict p cf o = Ok (p1, o1) -> o_spec_sends o1 = o_spec_sends o.
+Proof.
+  intros p cf o p1 o1 E. unfold handle_rollback_and_save in E.
+  apply res_bind_ok in E. destruct E as ([p2 o2] & E2 & E).
+  assert (H2 : o_spec_sends o2 = o_spec_sends o).
+  { destruct (_ =? NULL); [injection E2 as <- <-; reflexivity|].
+    apply res_bind_ok in E2. destruct E2 as ([p3 o3] & Ea & E2). injection E2 as <- <-. exact (adjust_sends _ _ _ _ _ _ Ea). }
+  rewrite <- H2. destruct (ps_sparse p2).
+  - unfold check_last_saved_state in E. destruct (_ <? ps_maxpred p2); [injection E as <- <-; reflexivity|].
+    apply res_bind_ok in E. destruct E as ([p3 o3] & E3 & E). destruct (negb _); [discriminate|]. injection E as <- <-.
+    destruct (_ <=? cf).
+    + apply res_bind_ok in E3. destruct E3 as ([s3 r] & _ & E3). injection E3 as <- <-. reflexivity.
+    + exact (adjust_sends _ _ _ _ _ _ E3).
+  - apply res_bind_ok in E. destruct E as ([s3 r] & _ & E). injection E as <- <-. reflexivity.
+Qed.
+
 (* the invariant between the game's history and the session, at call boundaries *)
 Definition TI (p : p2p) (gs : list ghost) (G : ghist) : Prop :=
   glen G = s_current (ps_sync p) /\
@@ -435,36 +506,42 @@ Proof.
   destruct Hh as [->|(_ & _ & _ & ext & ->)]; [exact X|]. unfold hlen in *. rewrite app_length. lia.
 Qed.
 
-Lemma advance_rollback_timeline : forall p gs g w d o p' o' G,
+(* what the rollback step must deliver, progress (HRpost) and timeline together *)
+Definition HRti (p : p2p) (gs : list ghost) (cf : Z) (o : pout) (G : ghist) : Prop :=
+  exists p1 o1 R, HRpost predict p gs cf o p1 o1 /\ o_requests o1 = o_requests o ++ R /\
+    GIl (s_current (ps_sync p)) (replay_hist G R) (s_queues (ps_sync p1)) gs /\
+    glen (replay_hist G R) = s_current (ps_sync p) /\ PNl (s_current (ps_sync p)) (s_queues (ps_sync p1)) gs.
+
+Lemma advance_rollback_timeline_gen : forall sp p gs w d o p' o' G,
   advance_rollback_frame predict p o = Ok (p', o') ->
-  QS w d p gs -> JI w p g -> Forall (fun c => cs_last c < I32MAX) (ps_status p) ->
+  QSg sp w d p gs -> Forall (fun c => cs_last c < I32MAX) (ps_status p) ->
   (forall h, In h (local_handles p) -> exists pi, assoc_get (ps_pending p) h = Some pi) ->
+  (forall cf, confirmed_frame p = Ok cf -> s_last_confirmed (ps_sync p) <= cf ->
+     Forall (fun g : ghost => cf <= hlen (fst g) - 1) gs -> HRti p gs cf o G) ->
   TI p gs G ->
-  exists gs' R, o_requests o' = o_requests o ++ R /\ QS w d p' gs' /\ TI p' gs' (replay_hist G R) /\
+  exists gs' R, o_requests o' = o_requests o ++ R /\ QSg sp w d p' gs' /\ TI p' gs' (replay_hist G R) /\
     hist_step d (ps_pending p) (local_handles p) gs gs' /\ ps_kinds p' = ps_kinds p /\
     exists cf, confirmed_frame p = Ok cf /\ o_spec_sends o' = o_spec_sends o ++ spec_sent p gs cf /\
                ps_next_spec p' = next_spec_after p cf /\ ps_spectators p' = ps_spectators p.
 Proof.
-  intros p gs g w d o p' o' G E HQS HJI Hbnd Hpend (HG & HGI & HPN).
-  destruct (rollback_confirm_progress predict p gs g w d o HQS HJI Hbnd)
-    as (cf & p1 & o1 & p2 & o2 & s3 & gs3 & Ecf & Er & Hshape & Es & Hp2 & Ho2 & Hsent & E3 & HQS3 & Hcl3 & Hmap3 & Hc3 & Hsame3 & Hc1).
+  intros sp p gs w d o p' o' G E HQS Hbnd Hpend Hroll (HG & HGI & HPN).
+  destruct (rollback_confirm_gen predict sp p gs w d o HQS Hbnd)
+    as (cf & p1 & o1 & p2 & o2 & s3 & gs3 & Ecf & Er & Hshape & Es & Hp2 & Ho2 & Hsent & E3 & HQS3 & Hcl3 & Hmap3 & Hc3 & Hsame3 & Hc1 & _ & _ & HLcf & Hcfg).
+  { intros cf0 A B C. destruct (Hroll cf0 A B C) as (pa & oa & _ & X & _). exists pa, oa. exact X. }
   pose proof HQS as [Hw Hd Hmode Hn Hconn Hgos HQ Hlast Hfr Hkinds Hpe Hsok].
   destruct Hmode as (Hrun & Hsp & Hdf). destruct Hn as (Hn1 & Hn2 & Hn3 & Hn4). destruct Hfr as (HfL & Hfc & Hfw).
   pose proof (QsI_length _ _ _ _ HQ) as Hlq.
-  destruct (handle_rollback_ti p gs cf o p1 o1 G Er Hsp Hconn ltac:(lia) Hdf HQ ltac:(lia) Hfc HG HGI HPN)
-    as (R1 & Ho1 & HGI1 & HG1 & HPN1).
+  destruct (Hroll cf Ecf HLcf Hcfg) as (p1' & o1' & R1 & (Er' & _) & Ho1 & HGI1 & HG1 & HPN1).
+  rewrite Er in Er'. injection Er' as <- <-.
   unfold advance_rollback_frame in E. rewrite Ecf in E. cbn [res_bind] in E. rewrite Er in E. cbn [res_bind] in E.
   rewrite Es in E. cbn [res_bind] in E.
-  assert (Hf2 : ps_sparse p2 = false /\ ps_sync p2 = ps_sync p1 /\ local_handles (with_sync p2 s3) = local_handles p /\
+  assert (Hf2 : ps_sparse p2 = sp /\ ps_sync p2 = ps_sync p1 /\ local_handles (with_sync p2 s3) = local_handles p /\
                 ps_pending (with_sync p2 s3) = ps_pending p /\ ps_kinds (with_sync p2 s3) = ps_kinds p /\
                 ps_next_spec (with_sync p2 s3) = next_spec_after p cf /\ ps_spectators (with_sync p2 s3) = ps_spectators p).
   { rewrite Hp2, Hshape. repeat split. exact Hsp. }
   destruct Hf2 as (Hsp2 & Hsy2 & Hlh3 & Hpe3 & Hkk3 & Hns3 & Hss3).
   rewrite Hsp2, Hsy2, E3 in E. cbn [res_bind] in E.
-  assert (Hspec_o1 : o_spec_sends o1 = o_spec_sends o).
-  { destruct HJI as [Jw Jmp Jfr Jcur Jroll]. destruct (Jroll ltac:(destruct Hw; lia)) as (_ & Jm & Jcells).
-    destruct (handle_rollback_exec predict p cf o p1 o1 g w (s_current (ps_sync p) - 1) Er Hsp ltac:(destruct Hw; lia) Jm Jfr Hfc ltac:(lia) Jcells)
-      as (_ & _ & _ & _ & X & _). exact X. }
+  pose proof (handle_rollback_sends _ _ _ _ _ Er) as Hspec_o1.
   set (p3 := with_sync p2 s3) in *.
   assert (Hpend3 : forall h, In h (local_handles p3) -> exists pi, assoc_get (ps_pending p3) h = Some pi).
   { intros h Hin. rewrite Hpe3. apply Hpend. rewrite <- Hlh3. exact Hin. }
@@ -489,7 +566,7 @@ Proof.
                                    exists pi, assoc_get (ps_pending p3) h = Some pi) (local_handles p3)).
   { apply Forall_forall. intros h Hin. pose proof Hin as Hin2. apply (local_handles_spec p3 h Hnp3) in Hin2.
     destruct Hin2 as (Hr & Hk). split; [lia|]. split; [exact Hk|]. apply Hpend3. exact Hin. }
-  destruct (register_go_progress false (local_handles p3) w d p3 gs3 HQS3 Hcl3 (local_handles_nodup p3) Hall)
+  destruct (register_go_progress sp (local_handles p3) w d p3 gs3 HQS3 Hcl3 (local_handles_nodup p3) Hall)
     as (p4 & gs4 & E4 & HQS4 & Hcl4 & Hrest4 & Hc4 & HL4 & Hdone4 & Hgrow4 & Hhist4).
   rewrite Hpe3, Hlh3 in Hhist4.
   assert (Hhist : hist_step d (ps_pending p) (local_handles p) gs gs4).
@@ -570,6 +647,36 @@ Proof.
 Qed.
 
 
+
+Lemma dense_rollback_ti : forall p gs g w d o cf G,
+  QS w d p gs -> JI w p g -> s_last_confirmed (ps_sync p) <= cf -> TI p gs G -> HRti p gs cf o G.
+Proof.
+  intros p gs g w d o cf G HQS HJI HLcf (HG & HGI & HPN).
+  destruct (dense_rollback predict p gs g w d o cf HQS HJI HLcf) as (p1 & o1 & HR).
+  pose proof HR as (Er & _).
+  pose proof HQS as [Hw Hd Hmode Hn Hconn Hgos HQ Hlast Hfr Hkinds Hpe Hsok].
+  destruct Hmode as (Hrun & Hsp & Hdf). destruct Hn as (Hn1 & Hn2 & Hn3 & Hn4). destruct Hfr as (HfL & Hfc & Hfw).
+  pose proof (QsI_length _ _ _ _ HQ) as Hlq.
+  destruct (handle_rollback_ti p gs cf o p1 o1 G Er Hsp Hconn ltac:(lia) Hdf HQ ltac:(lia) Hfc HG HGI HPN)
+    as (R1 & Ho1 & HGI1 & HG1 & HPN1).
+  exists p1, o1, R1. split; [exact HR|]. split; [exact Ho1|]. split; [exact HGI1|]. split; [exact HG1|exact HPN1].
+Qed.
+
+Lemma advance_rollback_timeline : forall p gs g w d o p' o' G,
+  advance_rollback_frame predict p o = Ok (p', o') ->
+  QS w d p gs -> JI w p g -> Forall (fun c => cs_last c < I32MAX) (ps_status p) ->
+  (forall h, In h (local_handles p) -> exists pi, assoc_get (ps_pending p) h = Some pi) ->
+  TI p gs G ->
+  exists gs' R, o_requests o' = o_requests o ++ R /\ QS w d p' gs' /\ TI p' gs' (replay_hist G R) /\
+    hist_step d (ps_pending p) (local_handles p) gs gs' /\ ps_kinds p' = ps_kinds p /\
+    exists cf, confirmed_frame p = Ok cf /\ o_spec_sends o' = o_spec_sends o ++ spec_sent p gs cf /\
+               ps_next_spec p' = next_spec_after p cf /\ ps_spectators p' = ps_spectators p.
+Proof.
+  intros p gs g w d o p' o' G E HQS HJI Hbnd Hpend HTI.
+  apply (advance_rollback_timeline_gen false p gs w d o p' o' G E HQS Hbnd Hpend); [|exact HTI].
+  intros cf _ HLcf _. exact (dense_rollback_ti p gs g w d o cf G HQS HJI HLcf HTI).
+Qed.
+
 (* what one call hands to the spectators: the next n frames after those already sent, consecutive,
    each with the inputs held for it (n = 0 for every call other than a successful advance_frame);
    every frame sent is one for which every player's input is already held *)
@@ -591,9 +698,9 @@ Proof.
   intros Hne. destruct (Hs Hne) as (_ & _ & X). eapply Forall_impl; [|exact X]. cbv beta. intros g Hg. lia.
 Qed.
 
-Lemma cf_bound : forall w d p gs cf, QS w d p gs -> confirmed_frame p = Ok cf -> Forall (fun g : ghost => cf + 1 <= hlen (fst g)) gs.
+Lemma cf_bound : forall sp w d p gs cf, QSg sp w d p gs -> confirmed_frame p = Ok cf -> Forall (fun g : ghost => cf + 1 <= hlen (fst g)) gs.
 Proof.
-  intros w d p gs cf HQS E. unfold confirmed_frame in E.
+  intros sp w d p gs cf HQS E. unfold confirmed_frame in E.
   destruct (cf_fold (ps_status p) I32MAX (qs_conn _ _ _ _ HQS)) as (_ & B & _).
   set (m := fold_left _ _ _) in *. destruct (m <? I32MAX); [|discriminate]. injection E as <-.
   pose proof (cf_le_all _ _ _ (qs_last _ _ _ _ HQS) B) as X. eapply Forall_impl; [|exact X]. cbv beta. intros g Hg. lia.
@@ -656,7 +763,7 @@ Proof.
   { intros h Hin. rewrite Hpe1. apply Hpend. rewrite <- Hlh1. exact Hin. }
   exists gs'. split; [exact HQS'|]. split; [rewrite Ho, replay_hist_app, Hrep1; exact HTI'|]. split; [rewrite <- Hpe1, <- Hlh1; exact Hh'|]. split; [congruence|].
   apply (spec_sent_step p gs cf); [exact Hsok| |congruence| |].
-  - apply (cf_bound w d p gs cf HQS). unfold confirmed_frame in *. rewrite <- Hst1. exact Ecf.
+  - apply (cf_bound _ w d p gs cf HQS). unfold confirmed_frame in *. rewrite <- Hst1. exact Ecf.
   - rewrite Hsent, Hos1. unfold spec_sent. rewrite Hss1, Hns1. reflexivity.
   - rewrite Hns'. unfold next_spec_after. rewrite Hss1, Hns1. reflexivity.
 Qed.
@@ -731,6 +838,27 @@ Proof.
 Qed.
 
 
+(* ================= the run theorems, once for both saving modes =================
+   sp = the saving mode; CI = the invariant that ties the session to the game's saved states in that mode
+   (dense: SessionProofs.JI; sparse: SessionSparse.JS with SessionSparse2.SX).  What the mode has to supply:
+   every operation inside the space succeeds and keeps CI (CI_step), and advance_frame keeps the timeline
+   invariant TI (CI_adv). *)
+Section Generic.
+Variable sp : bool.
+Variable CI : Z -> p2p -> game -> Prop.
+Hypothesis CI_step : forall p gs g w d o,
+  QSg sp w d p gs -> CI w p g -> op_ok p o = true ->
+  exists s g', sstep predict p o = Ok s /\ exec w g (o_requests (sr_out s)) = Some g' /\ CI w (sr_state s) g'.
+Hypothesis CI_adv : forall p gs g w d p' o r G,
+  advance predict p = Ok (p', o, r) ->
+  QSg sp w d p gs -> CI w p g -> Forall (fun c => cs_last c < I32MAX) (ps_status p) -> TI p gs G ->
+  exists gs', QSg sp w d p' gs' /\ TI p' gs' (replay_hist G (o_requests o)) /\
+    hist_step d (ps_pending p) (local_handles p) gs gs' /\ ps_kinds p' = ps_kinds p /\ spec_step p gs o p'.
+Hypothesis CI_frame : forall w p g, CI w p g -> gframe g = s_current (ps_sync p).
+Hypothesis CI_start : forall n w d kinds eps nspec, 1 <= w -> CI w (session_start n w sp d kinds eps nspec) (game0 w).
+(* every lemma of this section takes all four hypotheses, whether its proof uses them or not *)
+Set Default Proof Using "All".
+
 Lemma TI_sync : forall p p' gs G, ps_sync p' = ps_sync p -> TI p gs G -> TI p' gs G.
 Proof. intros p p' gs G E H. unfold TI in *. rewrite E. exact H. Qed.
 
@@ -743,15 +871,15 @@ Definition op_hist (d : Z) (p : p2p) (o : sop) (gs gs' : list ghost) : Prop :=
   | _ => gs' = gs
   end.
 
-Lemma step_timeline : forall p gs g w d o,
-  QS w d p gs -> JI w p g -> TI p gs (g_hist g) -> op_ok p o = true ->
-  exists s gs' g', sstep predict p o = Ok s /\ QS w d (sr_state s) gs' /\
-    exec w g (o_requests (sr_out s)) = Some g' /\ JI w (sr_state s) g' /\ TI (sr_state s) gs' (g_hist g') /\
+Lemma step_timeline_g : forall p gs g w d o,
+  QSg sp w d p gs -> CI w p g -> TI p gs (g_hist g) -> op_ok p o = true ->
+  exists s gs' g', sstep predict p o = Ok s /\ QSg sp w d (sr_state s) gs' /\
+    exec w g (o_requests (sr_out s)) = Some g' /\ CI w (sr_state s) g' /\ TI (sr_state s) gs' (g_hist g') /\
     op_hist d p o gs gs' /\ ps_kinds (sr_state s) = ps_kinds p /\ spec_step p gs (sr_out s) (sr_state s).
 Proof.
   intros p gs g w d o HQS HJI HTI Hok.
   destruct o as [h v|pl f v|ep st|hs|h|h dd|]; cbn [op_ok] in Hok; try discriminate.
-  - destruct (step_in_space predict p gs g w d (SLocal h v) HQS HJI Hok) as (s & gs' & g' & Es & HQ' & Ex & HJ').
+  - destruct (CI_step p gs g w d (SLocal h v) HQS HJI Hok) as (s & g' & Es & Ex & HJ').
     cbn [sstep] in Es. destruct (local_progress _ w d p gs h v HQS) as (HQl & Hs & _).
     destruct (api_add_local_input p h v) as [p1 r1] eqn:E1. injection Es as <-. cbn [sr_state sr_out out0 o_requests exec fst] in *.
     injection Ex as <-. exists (mksr p1 out0 r1), gs, g. cbn [sstep sr_state sr_out out0 o_requests exec]. rewrite E1.
@@ -759,15 +887,17 @@ Proof.
     split; [reflexivity|]. unfold api_add_local_input in E1.
     split; [destruct (kind_at p h) as [[| |]|]; injection E1 as <- _; reflexivity|].
     apply spec_step_none; [exact (qs_spec _ _ _ _ HQS)| | |reflexivity]; destruct (kind_at p h) as [[| |]|]; injection E1 as <- _; reflexivity.
-  - apply andb_prop in Hok. destruct Hok as [Hok H5]. apply andb_prop in Hok. destruct Hok as [Hok H4].
+  - destruct (CI_step p gs g w d (SRemote pl f v) HQS HJI Hok) as (s0 & g0 & Es0 & Ex0 & HJ0).
+    apply andb_prop in Hok. destruct Hok as [Hok H5]. apply andb_prop in Hok. destruct Hok as [Hok H4].
     apply andb_prop in Hok. destruct Hok as [Hok H3]. apply andb_prop in Hok. destruct Hok as [H1 H2].
     destruct (nth_error (ps_kinds p) (Z.to_nat pl)) as [[|e|e]|] eqn:Ek; try discriminate.
     destruct (remote_progress _ w d p gs pl f v e HQS ltac:(lia) Ek ltac:(lia) ltac:(lia))
       as (p' & gs' & E & HQ' & q & hist & low & q' & Eq & Eg & -> & Hqs' & F' & P' & Hc' & _ & _).
+    cbn [sstep] in Es0. rewrite E in Es0. cbn [res_bind] in Es0. injection Es0 as <-. cbn [sr_state sr_out out0 o_requests exec] in Ex0, HJ0. injection Ex0 as <-.
     cbn [sstep]. rewrite E. cbn [res_bind].
     exists (mksr p' out0 AOk), (updz gs (Z.to_nat pl) (hist ++ [v], low)), g. cbn [sr_state sr_out out0 o_requests exec].
     split; [reflexivity|]. split; [exact HQ'|]. split; [reflexivity|].
-    split; [eapply JI_frame; [exact HJI|]; eapply ev_input_frame; exact E|].
+    split; [exact HJ0|].
     split; [|split; [cbn [op_hist]; exists hist, low; split; [exact Eg|reflexivity]|]].
     2:{ pose proof (qs_spec _ _ _ _ HQS) as Hsk. clear - E Hsk. unfold ev_input in E. destruct (negb _); [discriminate|]. destruct (cs_disc _); [injection E as <-; split; [reflexivity|apply spec_step_none; [exact Hsk|reflexivity..]]|].
         destruct (negb _); [discriminate|]. destruct (add_remote_input _ _ _ _); cbn [res_bind] in E; try discriminate. injection E as <-.
@@ -786,7 +916,7 @@ Proof.
       * rewrite nth_error_updz_same in B by exact Hl1. rewrite nth_error_updz_same in C by exact Hl2.
         injection B as <-. injection C as <-. exact HPN'.
       * rewrite nth_error_updz_other in B by exact Hne. rewrite nth_error_updz_other in C by exact Hne. exact (HPN h0 q0 gh0 B C).
-  - destruct (step_in_space predict p gs g w d (SGossip ep st) HQS HJI Hok) as (s & gs' & g' & Es & HQ' & Ex & HJ').
+  - destruct (CI_step p gs g w d (SGossip ep st) HQS HJI Hok) as (s & g' & Es & Ex & HJ').
     cbn [sstep] in Es. injection Es as <-. cbn [sr_state sr_out out0 o_requests exec] in *. injection Ex as <-.
     exists (mksr (gossip p ep st) out0 AOk), gs, g. cbn [sr_state sr_out out0 o_requests exec].
     split; [reflexivity|]. split.
@@ -796,25 +926,27 @@ Proof.
     eapply TI_sync; [|exact HTI]. unfold gossip. destruct (nth_error (ps_remotes p) (Z.to_nat ep)); reflexivity.
   - assert (Hbnd : Forall (fun c => cs_last c < I32MAX) (ps_status p)).
     { apply Forall_forall. intros s0 Hs0. rewrite forallb_forall in Hok. specialize (Hok s0 Hs0). lia. }
-    destruct (advance_progress predict p gs g w d HQS HJI Hbnd) as (p' & o & r & _ & g' & E & _ & Ex & HJ').
-    destruct (advance_timeline p gs g w d p' o r (g_hist g) E HQS HJI Hbnd HTI) as (gs' & HQ' & HTI' & Hh' & Hkk' & Hss').
-    cbn [sstep]. rewrite E. cbn [res_bind].
+    destruct (CI_step p gs g w d SAdvance HQS HJI Hok) as (s0 & g' & Es0 & Ex & HJ').
+    cbn [sstep] in Es0. destruct (advance predict p) as [[[p' o] r]| |] eqn:E; cbn [res_bind] in Es0; try discriminate. injection Es0 as <-.
+    cbn [sr_state sr_out] in Ex, HJ'.
+    destruct (CI_adv p gs g w d p' o r (g_hist g) E HQS HJI Hbnd HTI) as (gs' & HQ' & HTI' & Hh' & Hkk' & Hss').
+    cbn [sstep]. rewrite ?E. cbn [res_bind].
     exists (mksr p' o r), gs', g'. cbn [sr_state sr_out]. split; [reflexivity|]. split; [exact HQ'|]. split; [exact Ex|].
     split; [exact HJ'|]. split; [rewrite (exec_hist _ _ _ _ Ex); exact HTI'|]. split; [exact Hh'|split; [exact Hkk'|exact Hss']].
 Qed.
 
 (* the run theorem with the timeline invariant *)
-Theorem run_timeline : forall ops p gs g w d,
-  QS w d p gs -> JI w p g -> TI p gs (g_hist g) ->
+Theorem run_timeline_g : forall ops p gs g w d,
+  QSg sp w d p gs -> CI w p g -> TI p gs (g_hist g) ->
   srun_in predict p ops = Err \/
   exists p' outs gs' g', srun_in predict p ops = Ok (p', outs) /\ srun predict p ops = Ok (p', outs) /\
-    exec_outs w g outs = Some g' /\ QS w d p' gs' /\ JI w p' g' /\ TI p' gs' (g_hist g').
+    exec_outs w g outs = Some g' /\ QSg sp w d p' gs' /\ CI w p' g' /\ TI p' gs' (g_hist g').
 Proof.
   induction ops as [|o ops IH]; intros p gs g w d HQS HJI HTI.
   - right. exists p, [], gs, g. cbn [srun_in srun exec_outs]. split; [reflexivity|]. split; [reflexivity|]. split; [reflexivity|].
     split; [exact HQS|]. split; [exact HJI|exact HTI].
   - cbn [srun_in srun]. destruct (op_ok p o) eqn:Hok; [|left; reflexivity].
-    destruct (step_timeline p gs g w d o HQS HJI HTI Hok) as (s & gs1 & g1 & Es & HQ1 & Ex1 & HJ1 & HT1 & _ & _ & _).
+    destruct (step_timeline_g p gs g w d o HQS HJI HTI Hok) as (s & gs1 & g1 & Es & HQ1 & Ex1 & HJ1 & HT1 & _ & _ & _).
     rewrite Es. cbn [res_bind].
     destruct (IH (sr_state s) gs1 g1 w d HQ1 HJ1 HT1) as [Herr|(p' & outs & gs' & g' & E1 & E2 & Ex & HQ' & HJ' & HT')].
     + left. rewrite Herr. reflexivity.
@@ -828,13 +960,13 @@ Qed.
 Definition remote_vals (pl : Z) (ops : list sop) : list Z :=
   flat_map (fun o => match o with SRemote pl' _ v => if pl' =? pl then [v] else [] | _ => [] end) ops.
 
-(* run_timeline, plus: the history held for a remote player is what was held before followed by exactly
+(* run_timeline_g, plus: the history held for a remote player is what was held before followed by exactly
    the inputs delivered for that player, in order (nothing lost, duplicated, reordered or altered) *)
-Theorem run_timeline_streams : forall ops p gs g w d,
-  QS w d p gs -> JI w p g -> TI p gs (g_hist g) ->
+Theorem run_timeline_streams_g : forall ops p gs g w d,
+  QSg sp w d p gs -> CI w p g -> TI p gs (g_hist g) ->
   srun_in predict p ops = Err \/
   exists p' outs gs' g', srun_in predict p ops = Ok (p', outs) /\ srun predict p ops = Ok (p', outs) /\
-    exec_outs w g outs = Some g' /\ QS w d p' gs' /\ JI w p' g' /\ TI p' gs' (g_hist g') /\
+    exec_outs w g outs = Some g' /\ QSg sp w d p' gs' /\ CI w p' g' /\ TI p' gs' (g_hist g') /\
     ps_kinds p' = ps_kinds p /\
     forall pl e hist low, 0 <= pl -> nth_error (ps_kinds p) (Z.to_nat pl) = Some (KRemote e) ->
       nth_error gs (Z.to_nat pl) = Some (hist, low) ->
@@ -845,7 +977,7 @@ Proof.
     split; [exact HQS|]. split; [exact HJI|]. split; [exact HTI|]. split; [reflexivity|].
     intros pl e hist low _ _ A. exists low. rewrite app_nil_r. exact A.
   - cbn [srun_in srun]. destruct (op_ok p o) eqn:Hok; [|left; reflexivity].
-    destruct (step_timeline p gs g w d o HQS HJI HTI Hok) as (s & gs1 & g1 & Es & HQ1 & Ex1 & HJ1 & HT1 & Hop & Hk1 & _).
+    destruct (step_timeline_g p gs g w d o HQS HJI HTI Hok) as (s & gs1 & g1 & Es & HQ1 & Ex1 & HJ1 & HT1 & Hop & Hk1 & _).
     rewrite Es. cbn [res_bind].
     destruct (IH (sr_state s) gs1 g1 w d HQ1 HJ1 HT1) as [Herr|(p' & outs & gs' & g' & E1 & E2 & Ex & HQ' & HJ' & HT' & Hk' & Hst')].
     + left. rewrite Herr. reflexivity.
@@ -895,7 +1027,7 @@ Proof.
   exists g0, (e0 ++ e1). split; [exact A0|]. rewrite B1, B0, app_assoc. reflexivity.
 Qed.
 
-Lemma op_hist_grows : forall w d p o gs gs' p', QS w d p gs -> QS w d p' gs' -> ps_nplayers p' = ps_nplayers p ->
+Lemma op_hist_grows_g : forall w d p o gs gs' p', QSg sp w d p gs -> QSg sp w d p' gs' -> ps_nplayers p' = ps_nplayers p ->
   op_hist d p o gs gs' -> grows_gs gs gs'.
 Proof.
   intros w d p o gs gs' p' HQ HQ' Hnp Hop.
@@ -933,16 +1065,16 @@ Qed.
 Definition all_spec_sends (outs : list (pout * apires)) : list (Z * list pinput) :=
   concat (map (fun o => o_spec_sends (fst o)) outs).
 
-(* run_timeline, plus: with at least one running spectator endpoint, everything the host hands to its
+(* run_timeline_g, plus: with at least one running spectator endpoint, everything the host hands to its
    spectators during the run is - concatenated - the frames from the old next_spectator_frame on, each
    exactly once, in order, each with the inputs held for it at the end (= when it was sent), and never
    a frame for which some player's input is not yet held *)
-Theorem run_timeline_broadcast : forall ops p gs g w d,
-  QS w d p gs -> JI w p g -> TI p gs (g_hist g) ->
+Theorem run_timeline_broadcast_g : forall ops p gs g w d,
+  QSg sp w d p gs -> CI w p g -> TI p gs (g_hist g) ->
   ps_spectators p <> [] -> existsb (fun b => b) (ps_spectators p) = true ->
   srun_in predict p ops = Err \/
   exists p' outs gs' g', srun_in predict p ops = Ok (p', outs) /\
-    exec_outs w g outs = Some g' /\ QS w d p' gs' /\ JI w p' g' /\ TI p' gs' (g_hist g') /\
+    exec_outs w g outs = Some g' /\ QSg sp w d p' gs' /\ CI w p' g' /\ TI p' gs' (g_hist g') /\
     grows_gs gs gs' /\ ps_spectators p' = ps_spectators p /\ ps_nplayers p' = ps_nplayers p /\
     ps_next_spec p <= ps_next_spec p' /\
     all_spec_sends outs = map (fun f => (f, held_at gs' f)) (zrange_from (ps_next_spec p) (Z.to_nat (ps_next_spec p' - ps_next_spec p))).
@@ -952,12 +1084,12 @@ Proof.
     split; [exact HQS|]. split; [exact HJI|]. split; [exact HTI|]. split; [apply grows_gs_refl|]. split; [reflexivity|]. split; [reflexivity|].
     split; [lia|]. rewrite Z.sub_diag. reflexivity.
   - cbn [srun_in]. destruct (op_ok p o) eqn:Hok; [|left; reflexivity].
-    destruct (step_timeline p gs g w d o HQS HJI HTI Hok) as (s & gs1 & g1 & Es & HQ1 & Ex1 & HJ1 & HT1 & Hop & Hk1 & (Hss & n & Hsend & Hns & Hbound)).
+    destruct (step_timeline_g p gs g w d o HQS HJI HTI Hok) as (s & gs1 & g1 & Es & HQ1 & Ex1 & HJ1 & HT1 & Hop & Hk1 & (Hss & n & Hsend & Hns & Hbound)).
     rewrite Es. cbn [res_bind].
     assert (Hnp1 : ps_nplayers (sr_state s) = ps_nplayers p).
     { destruct (qs_n _ _ _ _ HQ1) as (_ & _ & A & _). destruct (qs_n _ _ _ _ HQS) as (_ & _ & B & _).
       destruct (qs_n _ _ _ _ HQ1) as (C & _). destruct (qs_n _ _ _ _ HQS) as (D & _). rewrite Hk1 in A. lia. }
-    pose proof (op_hist_grows w d p o gs gs1 (sr_state s) HQS HQ1 Hnp1 Hop) as Hg1.
+    pose proof (op_hist_grows_g w d p o gs gs1 (sr_state s) HQS HQ1 Hnp1 Hop) as Hg1.
     destruct (IH (sr_state s) gs1 g1 w d HQ1 HJ1 HT1 ltac:(rewrite Hss; exact Hne) ltac:(rewrite Hss; exact Hex))
       as [Herr|(p' & outs & gs' & g' & E1 & Ex & HQ' & HJ' & HT' & Hg' & Hss' & Hnp' & Hmono & Hall)].
     + left. rewrite Herr. reflexivity.
@@ -977,7 +1109,7 @@ Proof.
       * eapply Forall_impl; [|exact Hbound]. cbv beta. intros g0 Hg0. lia.
 Qed.
 
-Lemma TI_start : forall n w d kinds eps nspec, TI (session_start n w false d kinds eps nspec) (repeat ([], 0) (Z.to_nat n)) [].
+Lemma TI_start_g : forall n w d kinds eps nspec, TI (session_start n w sp d kinds eps nspec) (repeat ([], 0) (Z.to_nat n)) [].
 Proof.
   intros n w d kinds eps nspec. unfold TI, session_start, p2p_new, sync_new.
   cbn [with_running with_queues ps_sync s_current s_queues glen length Z.of_nat].
@@ -993,20 +1125,20 @@ Qed.
 (* C01 on one session, every run inside the space: every frame up to the last confirmed frame that
    the game has simulated was last simulated, for every player, with the input the session holds
    for that frame and player (the histories gs of the invariant QS) *)
-Theorem confirmed_frames_use_held_inputs : forall ops n w d kinds eps nspec p outs,
+Theorem confirmed_frames_use_held_inputs_g : forall ops n w d kinds eps nspec p outs,
   1 <= w -> 0 <= d -> w + d + 3 <= QLEN -> 0 < n -> Z.of_nat (length kinds) = n -> players_only kinds ->
-  srun_in predict (session_start n w false d kinds eps nspec) ops = Ok (p, outs) ->
-  exists g gs, exec_outs w (game0 w) outs = Some g /\ QS w d p gs /\ gframe g = s_current (ps_sync p) /\
+  srun_in predict (session_start n w sp d kinds eps nspec) ops = Ok (p, outs) ->
+  exists g gs, exec_outs w (game0 w) outs = Some g /\ QSg sp w d p gs /\ gframe g = s_current (ps_sync p) /\
     forall h hist low f, nth_error gs h = Some (hist, low) ->
       0 <= f <= s_last_confirmed (ps_sync p) -> f < s_current (ps_sync p) ->
       f < hlen hist /\ gvalL (g_hist g) f h = hval hist f.
 Proof.
   intros ops n w d kinds eps nspec p outs Hw Hd Hcap Hn Hlen Hpl H.
-  destruct (run_timeline ops _ _ (game0 w) w d (QS_start n w d kinds eps nspec Hw Hd Hcap Hn Hlen Hpl)
-              (JI_start n w d kinds eps nspec ltac:(lia)) (TI_start n w d kinds eps nspec))
+  destruct (run_timeline_g ops _ _ (game0 w) w d (QS_start_gen sp n w d kinds eps nspec Hw Hd Hcap Hn Hlen Hpl)
+              (CI_start n w d kinds eps nspec Hw) (TI_start_g n w d kinds eps nspec))
     as [E|(p' & outs' & gs & g & E1 & _ & Ex & HQS & HJ & (HG & HGI & _))]; [congruence|].
   rewrite H in E1. injection E1 as <- <-.
-  exists g, gs. split; [exact Ex|]. split; [exact HQS|]. split; [exact (ji_frame _ _ _ HJ)|].
+  exists g, gs. split; [exact Ex|]. split; [exact HQS|]. split; [exact (CI_frame _ _ _ HJ)|].
   intros h hist low f Eg Hf Hfc.
   pose proof (qs_qs _ _ _ _ HQS) as HQ. pose proof (QsI_length _ _ _ _ HQ) as Hlq.
   destruct (nth_error_some_len (s_queues (ps_sync p)) gs h (hist, low) Hlq Eg) as (q & Eq).
@@ -1021,20 +1153,20 @@ Qed.
 
 (* remote players in closed form: every confirmed, simulated frame f was last simulated with the f-th
    input delivered for that player during the run *)
-Theorem confirmed_frames_use_delivered_inputs : forall ops n w d kinds eps nspec p outs,
+Theorem confirmed_frames_use_delivered_inputs_g : forall ops n w d kinds eps nspec p outs,
   1 <= w -> 0 <= d -> w + d + 3 <= QLEN -> 0 < n -> Z.of_nat (length kinds) = n -> players_only kinds ->
-  srun_in predict (session_start n w false d kinds eps nspec) ops = Ok (p, outs) ->
+  srun_in predict (session_start n w sp d kinds eps nspec) ops = Ok (p, outs) ->
   exists g, exec_outs w (game0 w) outs = Some g /\ gframe g = s_current (ps_sync p) /\
     forall pl e f, 0 <= pl -> nth_error kinds (Z.to_nat pl) = Some (KRemote e) ->
       0 <= f <= s_last_confirmed (ps_sync p) -> f < s_current (ps_sync p) ->
       f < hlen (remote_vals pl ops) /\ gvalL (g_hist g) f (Z.to_nat pl) = hval (remote_vals pl ops) f.
 Proof.
   intros ops n w d kinds eps nspec p outs Hw Hd Hcap Hn Hlen Hpl H.
-  destruct (run_timeline_streams ops _ _ (game0 w) w d (QS_start n w d kinds eps nspec Hw Hd Hcap Hn Hlen Hpl)
-              (JI_start n w d kinds eps nspec ltac:(lia)) (TI_start n w d kinds eps nspec))
+  destruct (run_timeline_streams_g ops _ _ (game0 w) w d (QS_start_gen sp n w d kinds eps nspec Hw Hd Hcap Hn Hlen Hpl)
+              (CI_start n w d kinds eps nspec Hw) (TI_start_g n w d kinds eps nspec))
     as [E|(p' & outs' & gs & g & E1 & _ & Ex & HQS & HJ & (HG & HGI & _) & _ & Hst)]; [congruence|].
   rewrite H in E1. injection E1 as <- <-.
-  exists g. split; [exact Ex|]. split; [exact (ji_frame _ _ _ HJ)|].
+  exists g. split; [exact Ex|]. split; [exact (CI_frame _ _ _ HJ)|].
   intros pl e f Hp0 Hk Hf Hfc.
   assert (Hl : (Z.to_nat pl < length kinds)%nat) by (apply nth_error_Some; congruence).
   destruct (Hst pl e [] 0 Hp0) as (low' & Eg).
@@ -1052,20 +1184,70 @@ Proof.
 Qed.
 
 (* local players, one call at a time: from any state satisfying the invariants (every reachable state
-   does: run_timeline) an operation inside the space succeeds, re-establishes them, and changes the
+   does: run_timeline_g) an operation inside the space succeeds, re-establishes them, and changes the
    held histories exactly as op_hist says - in particular advance_frame appends to a local player's
    history at most its pending input (the value of the last add_local_input for it), preceded by the
    d blank inputs of the input delay when it is the player's first input, and nothing else *)
-Theorem held_inputs_step : forall p gs g w d o,
-  QS w d p gs -> JI w p g -> TI p gs (g_hist g) -> op_ok p o = true ->
-  exists s gs' g', sstep predict p o = Ok s /\ QS w d (sr_state s) gs' /\ JI w (sr_state s) g' /\
+Theorem held_inputs_step_g : forall p gs g w d o,
+  QSg sp w d p gs -> CI w p g -> TI p gs (g_hist g) -> op_ok p o = true ->
+  exists s gs' g', sstep predict p o = Ok s /\ QSg sp w d (sr_state s) gs' /\ CI w (sr_state s) g' /\
     TI (sr_state s) gs' (g_hist g') /\ op_hist d p o gs gs'.
 Proof.
   intros p gs g w d o HQS HJI HTI Hok.
-  destruct (step_timeline p gs g w d o HQS HJI HTI Hok) as (s & gs' & g' & A & B & _ & C & D & E & _ & _).
+  destruct (step_timeline_g p gs g w d o HQS HJI HTI Hok) as (s & gs' & g' & A & B & _ & C & D & E & _ & _).
   exists s, gs', g'. split; [exact A|]. split; [exact B|]. split; [exact C|]. split; [exact D|exact E].
 Qed.
 
+
+(* C06, host half, from the start of a session with spectators *)
+Theorem host_broadcast_is_confirmed_timeline_g : forall ops n w d kinds eps nspec p outs,
+  1 <= w -> 0 <= d -> w + d + 3 <= QLEN -> 0 < n -> Z.of_nat (length kinds) = n -> players_only kinds -> (0 < nspec)%nat ->
+  srun_in predict (session_start n w sp d kinds eps nspec) ops = Ok (p, outs) ->
+  exists gs, QSg sp w d p gs /\
+    all_spec_sends outs = map (fun f => (f, held_at gs f)) (zrange_from 0 (Z.to_nat (ps_next_spec p))) /\
+    0 <= ps_next_spec p /\ s_last_confirmed (ps_sync p) + 1 <= ps_next_spec p /\
+    Forall (fun g : ghost => ps_next_spec p <= hlen (fst g)) gs.
+Proof.
+  intros ops n w d kinds eps nspec p outs Hw Hd Hcap Hn Hlen Hpl Hns H.
+  assert (Hsp : ps_spectators (session_start n w sp d kinds eps nspec) = repeat true nspec) by reflexivity.
+  destruct (run_timeline_broadcast_g ops _ _ (game0 w) w d (QS_start_gen sp n w d kinds eps nspec Hw Hd Hcap Hn Hlen Hpl)
+              (CI_start n w d kinds eps nspec Hw) (TI_start_g n w d kinds eps nspec))
+    as [E|(p' & outs' & gs & g & E1 & _ & HQS & _ & _ & _ & Hss & _ & Hmono & Hall)].
+  - rewrite Hsp. destruct nspec; [lia|discriminate].
+  - rewrite Hsp. destruct nspec; [lia|reflexivity].
+  - congruence.
+  - rewrite H in E1. injection E1 as <- <-. exists gs. split; [exact HQS|].
+    change (ps_next_spec (session_start n w sp d kinds eps nspec)) with 0 in Hall, Hmono. rewrite Z.sub_0_r in Hall.
+    split; [exact Hall|].
+    assert (Hne : ps_spectators p <> []) by (rewrite Hss, Hsp; destruct nspec; [lia|discriminate]).
+    exact (qs_spec _ _ _ _ HQS Hne).
+Qed.
+
+Unset Default Proof Using.
+End Generic.
+
+(* ---------- dense saving ---------- *)
+Lemma dense_CI_step : forall p gs g w d o,
+  QS w d p gs -> JI w p g -> op_ok p o = true ->
+  exists s g', sstep predict p o = Ok s /\ exec w g (o_requests (sr_out s)) = Some g' /\ JI w (sr_state s) g'.
+Proof.
+  intros p gs g w d o HQS HJI Hok.
+  destruct (step_in_space predict p gs g w d o HQS HJI Hok) as (s & gs' & g' & Es & _ & Ex & HJ').
+  exists s, g'. split; [exact Es|]. split; [exact Ex|exact HJ'].
+Qed.
+Lemma dense_CI_start : forall n w d kinds eps nspec, 1 <= w -> JI w (session_start n w false d kinds eps nspec) (game0 w).
+Proof. intros n w d kinds eps nspec Hw. apply JI_start. lia. Qed.
+
+Definition step_timeline := step_timeline_g false JI dense_CI_step advance_timeline ji_frame dense_CI_start.
+Definition run_timeline := run_timeline_g false JI dense_CI_step advance_timeline ji_frame dense_CI_start.
+Definition confirmed_frames_use_held_inputs :=
+  confirmed_frames_use_held_inputs_g false JI dense_CI_step advance_timeline ji_frame dense_CI_start.
+Definition confirmed_frames_use_delivered_inputs :=
+  confirmed_frames_use_delivered_inputs_g false JI dense_CI_step advance_timeline ji_frame dense_CI_start.
+Definition held_inputs_step := held_inputs_step_g false JI dense_CI_step advance_timeline ji_frame dense_CI_start.
+Definition host_broadcast_is_confirmed_timeline :=
+  host_broadcast_is_confirmed_timeline_g false JI dense_CI_step advance_timeline ji_frame dense_CI_start.
+Definition TI_start := TI_start_g false JI dense_CI_step advance_timeline ji_frame dense_CI_start.
 
 (* C09's premise: at every call boundary of a run inside the space, the state saved for a confirmed
    frame F that is still inside the saved-state window is the serial replay of the held inputs of the
@@ -1100,29 +1282,5 @@ Proof.
   destruct (qi_p4 _ _ _ _ _ Hqi En) as (_ & (A & _) & _). lia.
 Qed.
 
-
-(* C06, host half, from the start of a session with spectators *)
-Theorem host_broadcast_is_confirmed_timeline : forall ops n w d kinds eps nspec p outs,
-  1 <= w -> 0 <= d -> w + d + 3 <= QLEN -> 0 < n -> Z.of_nat (length kinds) = n -> players_only kinds -> (0 < nspec)%nat ->
-  srun_in predict (session_start n w false d kinds eps nspec) ops = Ok (p, outs) ->
-  exists gs, QS w d p gs /\
-    all_spec_sends outs = map (fun f => (f, held_at gs f)) (zrange_from 0 (Z.to_nat (ps_next_spec p))) /\
-    0 <= ps_next_spec p /\ s_last_confirmed (ps_sync p) + 1 <= ps_next_spec p /\
-    Forall (fun g : ghost => ps_next_spec p <= hlen (fst g)) gs.
-Proof.
-  intros ops n w d kinds eps nspec p outs Hw Hd Hcap Hn Hlen Hpl Hns H.
-  assert (Hsp : ps_spectators (session_start n w false d kinds eps nspec) = repeat true nspec) by reflexivity.
-  destruct (run_timeline_broadcast ops _ _ (game0 w) w d (QS_start n w d kinds eps nspec Hw Hd Hcap Hn Hlen Hpl)
-              (JI_start n w d kinds eps nspec ltac:(lia)) (TI_start n w d kinds eps nspec))
-    as [E|(p' & outs' & gs & g & E1 & _ & HQS & _ & _ & _ & Hss & _ & Hmono & Hall)].
-  - rewrite Hsp. destruct nspec; [lia|discriminate].
-  - rewrite Hsp. destruct nspec; [lia|reflexivity].
-  - congruence.
-  - rewrite H in E1. injection E1 as <- <-. exists gs. split; [exact HQS|].
-    change (ps_next_spec (session_start n w false d kinds eps nspec)) with 0 in Hall, Hmono. rewrite Z.sub_0_r in Hall.
-    split; [exact Hall|].
-    assert (Hne : ps_spectators p <> []) by (rewrite Hss, Hsp; destruct nspec; [lia|discriminate]).
-    exact (qs_spec _ _ _ _ HQS Hne).
-Qed.
 
 End Timeline.
